@@ -1926,3 +1926,209 @@ Proof.
   - destruct ((k =? EK_Aborted) && raborted r1); [apply CLOSE; apply exit_complete_in|cbn [fst]; discriminate].
 Qed.
 End Loop3.
+
+(* ---- the client of the theorem: every segment is a whole request ---- *)
+Lemma VB_junk vm rs w : Forall rcd_ok rs -> Forall (fun r => forall w', vstep_r vm r w' = Some vm) rs ->
+  VB vm 0 0 (enc_rcds rs ++ w) = VB vm 0 0 w.
+Proof.
+  induction 1 as [|r rs Hr Hrs IH]; intros HK; [reflexivity|]. inversion HK as [|? ? K1 K2]; subst.
+  rewrite enc_rcds_cons, <- app_assoc, (VB_record vm r _ Hr), K1. apply IH. exact K2.
+Qed.
+
+Lemma nba_eqb r : no_begin_abort r -> (rt r =? RT_AbortRequest) = false /\ (rt r =? RT_BeginRequest) = false.
+Proof. intros [H1 H2]. split; apply N.eqb_neq; assumption. Qed.
+
+Lemma junk_plain vm r w : no_begin_abort r -> (vm = MI \/ vm = MB \/ vm = MD) -> vstep_r vm r w = Some vm.
+Proof.
+  intros Hn Hvm. destruct (nba_eqb r Hn) as [Ea Eb]. unfold vstep_r, vstep. rewrite Ea, Eb.
+  destruct (known_type (rt r)); [|reflexivity]. destruct Hvm as [->|[->| ->]]; reflexivity.
+Qed.
+
+Lemma junk_MP id role r w : no_begin_abort r -> ~ (rid r = id /\ (rt r = RT_Params \/ rt r = RT_AbortRequest)) ->
+  vstep_r (MP id role) r w = Some (MP id role).
+Proof.
+  intros Hn Hj. destruct (nba_eqb r Hn) as [Ea Eb]. unfold vstep_r, vstep. rewrite Ea, Eb.
+  destruct (known_type (rt r)); [|reflexivity].
+  destruct (N.eqb_spec (rt r) RT_Params) as [Et|Et]; [|reflexivity].
+  destruct (N.eqb_spec (rid r) id) as [Ei|Ei]; [|reflexivity]. exfalso. apply Hj. split; [exact Ei|left; exact Et].
+Qed.
+
+Lemma junks_plain vm rs : Forall no_begin_abort rs -> (vm = MI \/ vm = MB \/ vm = MD) ->
+  Forall (fun r => forall w', vstep_r vm r w' = Some vm) rs.
+Proof. intros H Hvm. rewrite Forall_forall in *. intros r Hr w'. apply junk_plain; [apply H, Hr|exact Hvm]. Qed.
+
+Lemma junks_MP id role rs : Forall no_begin_abort rs -> Forall (params_junk_ok id) rs ->
+  Forall rcd_ok rs /\ Forall (fun r => forall w', vstep_r (MP id role) r w' = Some (MP id role)) rs.
+Proof.
+  intros H1 H2. rewrite Forall_forall in H1, H2. split; rewrite Forall_forall; intros r Hr; destruct (H2 r Hr) as [A B]; [exact A|].
+  intros w'. apply junk_MP; [apply H1, Hr|exact B].
+Qed.
+
+Lemma enc_one r w : enc_rcds [r] ++ w = enc_rcd r ++ w.
+Proof. cbn [enc_rcds flat_map]. rewrite app_nil_r. reflexivity. Qed.
+
+Lemma params_rcd_ok' id body pad : id < 65536 -> len body < 65536 -> len pad < 256 -> bytes_ok body -> bytes_ok pad ->
+  rcd_ok (mkRcd RT_Params id body pad).
+Proof. intros. unfold rcd_ok. cbn [rt rid rbody rpad]. unfold RT_Params. repeat split; try assumption; lia. Qed.
+
+Lemma VB_pieces id role : id < 65536 -> forall ps w, Forall (piece_ok id) ps ->
+  Forall (fun p => Forall no_begin_abort (pjunk p)) ps ->
+  VB (MP id role) 0 0 (enc_rcds (flat_map (piece_rcds id) ps) ++ w) = VB (MP id role) 0 0 w.
+Proof.
+  intros Hid. induction ps as [|p t IH]; intros w Hok Hnb; [reflexivity|].
+  inversion Hok as [|? ? Hp Hok']; inversion Hnb as [|? ? Hn Hnb']; subst.
+  destruct Hp as (P1 & P2 & P3 & P4 & P5). destruct (junks_MP id role (pjunk p) Hn P1) as [J1 J2].
+  cbn [flat_map]. unfold piece_rcds at 1. rewrite !enc_rcds_app, <- !app_assoc.
+  rewrite (VB_junk _ _ _ J1 J2), enc_one.
+  rewrite (VB_record _ _ _ (params_rcd_ok' id (pbody p) (ppad p) Hid ltac:(lia) P3 P4 P5)).
+  unfold vstep_r, vstep. cbn [rt rid rbody rpad]. change (known_type RT_Params) with true.
+  change (RT_Params =? RT_AbortRequest) with false. change (RT_Params =? RT_BeginRequest) with false.
+  rewrite !N.eqb_refl. destruct (N.eqb_spec (len (pbody p)) 0) as [Hz|_]; [lia|]. cbn [andb]. apply IH; assumption.
+Qed.
+
+Lemma last_cases role :
+  (last_opt role = None /\ role_input_streams role = []) \/
+  (exists tl, last_opt role = Some tl /\ In tl (role_input_streams role) /\ role_input_streams role <> [] /\
+              forall t, is_input_stream t = true -> t <> tl -> spec_cmp role t (Some tl) = Lt).
+Proof.
+  unfold last_opt. destruct (role_streams_cases role) as [Hr|[Hr|Hr]]; rewrite Hr; cbn [rev app].
+  - right. exists 5. split; [reflexivity|]. split; [left; reflexivity|]. split; [discriminate|].
+    intros t Ht Hne. apply is_input_cases in Ht. destruct Ht as [-> | ->]; [contradiction|]. unfold spec_cmp. rewrite Hr. reflexivity.
+  - left. split; reflexivity.
+  - right. exists 8. split; [reflexivity|]. split; [right; left; reflexivity|]. split; [discriminate|].
+    intros t Ht Hne. apply is_input_cases in Ht. destruct Ht as [-> | ->]; [|contradiction]. unfold spec_cmp. rewrite Hr. reflexivity.
+Qed.
+
+(* the stream records of a request: the terminator of the role's last input stream is among them *)
+Lemma VB_srs role id tl : last_opt role = Some tl ->
+  (forall t, is_input_stream t = true -> t <> tl -> spec_cmp role t (Some tl) = Lt) ->
+  forall rs w, Forall rcd_ok rs -> Forall no_begin_abort rs ->
+  ended_rcds role id (Some tl) rs = true -> VB (MS id role) 0 0 (enc_rcds rs ++ w) = VB MD 0 0 w.
+Proof.
+  intros HL HLt. induction rs as [|r t IH]; intros w Hok Hnb He; [discriminate He|].
+  inversion Hok as [|? ? Hr Hok']; inversion Hnb as [|? ? Hn Hnb']; subst.
+  rewrite enc_rcds_cons, <- app_assoc, (VB_record _ r _ Hr).
+  cbn [ended_rcds] in He. unfold rcd_effect_on in He. destruct (nba_eqb r Hn) as [Ea Eb].
+  unfold vstep_r, vstep. rewrite Ea, Eb. rewrite Ea in He. cbn [andb] in He.
+  assert (EL : is_last role (rt r) = (rt r =? tl)) by (unfold is_last; rewrite HL; reflexivity).
+  destruct (known_type (rt r)) eqn:Hk.
+  - destruct (is_input_stream (rt r) && (rid r =? id)) eqn:Hin; cbn [andb].
+    + apply andb_true_iff in Hin. destruct Hin as [Hti _]. rewrite EL.
+      destruct (N.eqb_spec (rt r) tl) as [Et|Et]; cbn [andb].
+      * unfold spec_cmp in He. rewrite Et, N.eqb_refl in He.
+        destruct (len (rbody r) =? 0).
+        -- apply VB_junk; [exact Hok'|]. apply junks_plain; [exact Hnb'|right; right; reflexivity].
+        -- apply IH; assumption.
+      * rewrite (HLt _ Hti Et) in He. apply IH; assumption.
+    + apply IH; assumption.
+  - destruct (unknown_not_special _ Hk) as (Hi & _). rewrite Hi in He. cbn [andb] in He. apply IH; assumption.
+Qed.
+
+Lemma creq_rcds_ok c : creq_ok c -> Forall rcd_ok (creq_rcds c).
+Proof.
+  intros ((P1 & P2 & P3 & P4 & P5 & P6 & P7 & P8 & P9 & P10) & _ & _ & _ & Hs & _).
+  unfold creq_rcds, preamble_rcds. repeat (apply Forall_app; split); try exact Hs.
+  - rewrite Forall_forall in *. intros r Hr. apply (P1 r Hr).
+  - constructor; [|constructor]. apply (begin_rcd_ok (w_id (c_pre c)) (w_role (c_pre c)) (w_flags (c_pre c)) (w_beginpad (c_pre c)));
+      try assumption; lia.
+  - induction P7 as [|p t Hp Ht IH]; [constructor|]. cbn [flat_map]. apply Forall_app. split; [|exact IH].
+    destruct Hp as (Q1 & Q2 & Q3 & Q4 & Q5). unfold piece_rcds. apply Forall_app. split.
+    + rewrite Forall_forall in *. intros r Hr. apply (Q1 r Hr).
+    + constructor; [|constructor]. apply params_rcd_ok'; try assumption; lia.
+  - rewrite Forall_forall in *. intros r Hr. apply (P8 r Hr).
+  - constructor; [|constructor]. apply params_rcd_ok'; try assumption; try lia; [rewrite len_nil; lia|constructor].
+Qed.
+
+(* a whole request of this client, walked from "waiting for the BeginRequest", is complete *)
+Lemma creq_VB c : creq_ok c -> VB MB 0 0 (enc_rcds (creq_rcds c)) = true.
+Proof.
+  intros ((P1 & P2 & P3 & P4 & P5 & P6 & P7 & P8 & P9 & P10) & Hni & Hnp & Hne & Hs & Hsn & Hend).
+  set (id := w_id (c_pre c)) in *. set (role := w_role (c_pre c)) in *.
+  unfold creq_rcds, preamble_rcds. fold id role. rewrite <- (app_nil_r (enc_rcds _)). rewrite !enc_rcds_app, <- !app_assoc.
+  (* records before the BeginRequest *)
+  rewrite VB_junk; [|rewrite Forall_forall in *; intros r Hr; apply (P1 r Hr)|apply junks_plain; [exact Hni|right; left; reflexivity]].
+  (* the BeginRequest *)
+  rewrite enc_one.
+  rewrite (VB_record _ _ _ (begin_rcd_ok id role (w_flags (c_pre c)) (w_beginpad (c_pre c)) ltac:(lia) P4 P5 P6)).
+  unfold begin_rcd, vstep_r at 1, vstep. cbn [rt rid rbody rpad]. change (known_type RT_BeginRequest) with true.
+  change (RT_BeginRequest =? RT_AbortRequest) with false. change (RT_BeginRequest =? RT_BeginRequest) with true.
+  change (len (begin_encode role (w_flags (c_pre c)))) with 8. change (8 =? 8) with true.
+  assert (Hlen : forall x, 8 <=? len (begin_encode role (w_flags (c_pre c)) ++ x) = true).
+  { intros x. rewrite len_app. change (len (begin_encode role (w_flags (c_pre c)))) with 8. apply N.leb_le. lia. }
+  assert (Htk : forall x, take 8 (begin_encode role (w_flags (c_pre c)) ++ x) = begin_encode role (w_flags (c_pre c))).
+  { intros x. change 8 with (len (begin_encode role (w_flags (c_pre c)))). apply take_len_app. }
+  rewrite Hlen, Htk. cbn [andb]. rewrite (begin_roundtrip role _ P3 P4).
+  destruct (N.eqb_spec id 0) as [Hz|_]; [lia|].
+  (* the Params records *)
+  rewrite (VB_pieces id role ltac:(lia) _ _ P7 Hnp).
+  destruct (junks_MP id role _ Hne P8) as [J1 J2]. rewrite (VB_junk _ _ _ J1 J2), enc_one.
+  rewrite (VB_record _ _ _ (params_rcd_ok' id [] (w_endpad (c_pre c)) ltac:(lia) ltac:(rewrite len_nil; lia) P9 ltac:(constructor) P10)).
+  unfold vstep_r at 1, vstep. cbn [rt rid rbody rpad]. change (known_type RT_Params) with true.
+  change (RT_Params =? RT_AbortRequest) with false. change (RT_Params =? RT_BeginRequest) with false.
+  rewrite !N.eqb_refl. change (len (@nil N) =? 0) with true. cbn [andb].
+  (* the stream records *)
+  unfold done_mode. destruct (last_cases role) as [[HL Hr]|(tl & HL & Hin & Hne' & HLt)].
+  - rewrite Hr. rewrite VB_junk; [reflexivity|exact Hs|apply junks_plain; [exact Hsn|right; right; reflexivity]].
+  - destruct (role_input_streams role) as [|x t] eqn:Er; [contradiction|].
+    rewrite (VB_srs role id tl HL HLt _ _ Hs Hsn); [reflexivity|].
+    rewrite Forall_forall in Hend. apply Hend. exact Hin.
+Qed.
+
+Lemma creq_seg_ok c : creq_ok c -> seg_ok (enc_rcds (creq_rcds c)).
+Proof.
+  intros H. pose proof (creq_VB c H) as V. split.
+  - intros E. rewrite E in V. discriminate V.
+  - intros p q x Hx. rewrite (VB_app_MI _ p q x _ (le_n _) Hx). exact V.
+Qed.
+
+Lemma client_tail_ok : forall cs done sofar, client_segs done sofar cs -> tail_ok done (enc_client cs).
+Proof.
+  induction cs as [|[[ge gm] c] t IH]; intros done sofar H; [exact I|].
+  cbn [client_segs] in H. destruct H as (-> & _ & Hc & H). cbn [enc_client map fst snd tail_ok].
+  split; [reflexivity|]. split; [apply creq_seg_ok, Hc|apply (IH _ _ H)].
+Qed.
+
+Definition peer_of (cs : list (N * N * creq)) : list (N * N * list rcd) :=
+  map (fun s => (0, snd (fst s), creq_rcds (snd s))) cs.
+
+Lemma client_peer : forall cs done sofar, client_segs done sofar cs -> peer_segs sofar (peer_of cs).
+Proof.
+  induction cs as [|[[ge gm] c] t IH]; intros done sofar H; [exact I|].
+  cbn [client_segs] in H. destruct H as (_ & Hgm & Hc & H). cbn [peer_of map fst snd peer_segs].
+  split; [reflexivity|]. split; [exact Hgm|]. split; [apply creq_rcds_ok, Hc|apply (IH _ _ H)].
+Qed.
+
+Lemma zero_ge_client cs : zero_ge (enc_client cs) = enc_segs (peer_of cs).
+Proof.
+  unfold zero_ge, enc_client, enc_segs, peer_of. rewrite !map_map. apply map_ext. intros [[ge gm] c]. reflexivity.
+Qed.
+
+Lemma Q3_init cs : client_segs 0 0 cs -> Q3 false MI 0 0 [] [] [] [] (enc_client cs).
+Proof.
+  intros H. split.
+  - unfold Qm. rewrite zero_ge_client. apply Q_init. apply (client_peer cs 0 0 H).
+  - pose proof (client_tail_ok cs 0 0 H) as HT. intros E0 ge gm b rest Es HF Hb.
+    pose proof (tail_ok_head _ _ _ _ _ HT Es HF) as ->. cbn [app] in Es. rewrite Es in HT.
+    cbn [tail_ok] in HT. destruct HT as (-> & Hs & HT). split; [exact HT|right].
+    split; [reflexivity|]. split; [exact Hs|]. cbn [app bonus]. lia.
+Qed.
+
+Lemma client_world : forall cs done sofar, client_segs done sofar cs ->
+  Forall (fun s : N * N * bytes => bytes_ok (snd s)) (enc_client cs).
+Proof.
+  induction cs as [|[[ge gm] c] t IH]; intros done sofar H; [constructor|]. cbn [client_segs] in H. destruct H as (_ & _ & Hc & H).
+  cbn [enc_client map]. constructor; [|apply (IH _ _ H)]. cbn [snd]. apply whole_bytes_ok.
+  exists (creq_rcds c). split; [apply creq_rcds_ok, Hc|reflexivity].
+Qed.
+
+Theorem client_never_deadlocks : client_never_deadlocks_stmt.
+Proof.
+  intros norm maxc scripts B cs w0 HB Hs Hsegs Hcl Hlog Hnf.
+  assert (Wok : world_ok w0) by (unfold world_ok; rewrite Hsegs; apply (client_world cs 0 0 Hcl)).
+  destruct (run_loop_total norm maxc scripts B w0 Wok Hs HB) as (w & [E|[E _]]); [rewrite E; reflexivity|].
+  exfalso. apply (run_loop_nd3 norm maxc scripts Hs (nb w0 + 4) (new_parser B) 0%nat w0 (new_parser_ok B HB) Wok);
+    [|rewrite E; reflexivity].
+  split; [apply world_ok_remaining; exact Wok|]. split; [exact Hnf|]. exists false.
+  rewrite Hlog, Hsegs. cbn [new_parser st held sk sprem spad rvm]. apply Q3_init. exact Hcl.
+Qed.
+Print Assumptions client_never_deadlocks.
